@@ -53,8 +53,103 @@ func (p *probeOps) Prune(context.Context, statedb.ReadTxn, iter.Seq2[*obj, state
 	return nil
 }
 
+// probeValidate: the configurations the convergence theorems exclude by hypothesis (round size >= 1, positive backoff
+// bounds, C14_converges_needs_positive_round_size_refuted) are rejected by reconciler.Register, and the smallest
+// configurations they admit are accepted (reconciler/config.go validate, reconciler/builder.go Register)
+func probeValidate() (bad []string) {
+	log := slog.New(slog.NewTextHandler(io.Discard, &slog.HandlerOptions{Level: slog.LevelError + 8}))
+	type cfgT struct {
+		name           string
+		round          int
+		minB, maxB     time.Duration
+		refresh, prune time.Duration
+		noClone, noOps bool
+		noGet, noSet   bool
+		wantErr        bool
+	}
+	ns := time.Nanosecond
+	cases := []cfgT{
+		{name: "roundsize=0", round: 0, minB: ns, maxB: ns, wantErr: true},
+		{name: "roundsize=-1", round: -1, minB: ns, maxB: ns, wantErr: true},
+		{name: "minbackoff=0", round: 1, minB: 0, maxB: ns, wantErr: true},
+		{name: "maxbackoff=0", round: 1, minB: ns, maxB: 0, wantErr: true},
+		{name: "minbackoff<0", round: 1, minB: -ns, maxB: ns, wantErr: true},
+		{name: "maxbackoff<0", round: 1, minB: ns, maxB: -ns, wantErr: true},
+		{name: "refresh<0", round: 1, minB: ns, maxB: ns, refresh: -ns, wantErr: true},
+		{name: "prune<0", round: 1, minB: ns, maxB: ns, prune: -ns, wantErr: true},
+		{name: "no-clone", round: 1, minB: ns, maxB: ns, noClone: true, wantErr: true},
+		{name: "no-getstatus", round: 1, minB: ns, maxB: ns, noGet: true, wantErr: true},
+		{name: "no-setstatus", round: 1, minB: ns, maxB: ns, noSet: true, wantErr: true},
+		{name: "no-operations", round: 1, minB: ns, maxB: ns, noOps: true, wantErr: true},
+		{name: "smallest-valid", round: 1, minB: ns, maxB: ns, wantErr: false},
+		{name: "valid-with-refresh-and-prune", round: 3, minB: time.Millisecond, maxB: time.Second, refresh: time.Second, prune: time.Second, wantErr: false},
+	}
+	for _, c := range cases {
+		var table statedb.RWTable[*obj]
+		var regErr error
+		po := &probeOps{updates: map[uint64][]int{}, calls: map[uint64][]probeCall{}}
+		h := hive.New(
+			statedb.Cell, job.Cell,
+			cell.Provide(cell.NewSimpleHealth, reconciler.NewExpVarMetrics,
+				func(r job.Registry, h cell.Health) job.Group { return r.NewGroup(h) }),
+			cell.Invoke(func(d *statedb.DB) (err error) {
+				table, err = statedb.NewTable(d, "probe", keyIndex)
+				return err
+			}),
+			cell.Module("probe", "probe", cell.Invoke(func(p reconciler.Params) error {
+				clone, set, get := (*obj).Clone, (*obj).SetStatus, (*obj).GetStatus
+				if c.noClone {
+					clone = nil
+				}
+				if c.noSet {
+					set = nil
+				}
+				if c.noGet {
+					get = nil
+				}
+				var ops reconciler.Operations[*obj] = po
+				if c.noOps {
+					ops = nil
+				}
+				opts := []reconciler.Option{
+					reconciler.WithRetry(c.minB, c.maxB),
+					reconciler.WithRoundLimits(c.round, rate.NewLimiter(rate.Inf, 1)),
+					reconciler.WithRefreshing(c.refresh, nil),
+				}
+				if c.prune != 0 {
+					opts = append(opts, reconciler.WithPruning(c.prune))
+				} else {
+					opts = append(opts, reconciler.WithoutPruning())
+				}
+				_, regErr = reconciler.Register(p, table, clone, set, get, ops, nil, opts...)
+				return nil
+			})),
+		)
+		func() {
+			defer func() {
+				if r := recover(); r != nil {
+					regErr = fmt.Errorf("panic: %v", r)
+				}
+			}()
+			if err := h.Populate(log); err != nil && regErr == nil {
+				regErr = err
+			}
+		}()
+		if c.wantErr && regErr == nil {
+			bad = append(bad, "invalid-configuration-accepted("+c.name+")")
+		}
+		if !c.wantErr && regErr != nil {
+			bad = append(bad, "valid-configuration-rejected("+c.name+")")
+		}
+	}
+	return bad
+}
+
 // runProbe returns the clauses that failed
 func runProbe(kind string, batch bool) (bad []string) {
+	if kind == "validate" {
+		return probeValidate()
+	}
 	var (
 		db    *statedb.DB
 		table statedb.RWTable[*obj]
